@@ -61,14 +61,15 @@ class ListBox:          # concrete-length local list / deque
         return ListBox(self.items, self.elem, self.kind)
 
 
-class SeqBox:           # symbolic-length local list (after a loop havoc)
-    def __init__(self, term, elem, kind="list"):
+class SeqBox:           # symbolic-length local list (after a loop havoc, or a list parameter owned by the function)
+    def __init__(self, term, elem, kind="list", elem_ann=None):
         self.term = term
         self.elem = elem          # 'str' (Seq(String)) or 'val' (Seq(Val))
         self.kind = kind
+        self.elem_ann = elem_ann  # annotation of the elements of a 'val' list (assumed at each read)
 
     def clone(self):
-        return SeqBox(self.term, self.elem, self.kind)
+        return SeqBox(self.term, self.elem, self.kind, self.elem_ann)
 
 
 class AbsBox:           # abstract collection: symbolic length, elements of an annotated shape (or opaque)
